@@ -50,6 +50,7 @@ type Report struct {
 	Covers          map[string]bool
 	CoverDecl       map[string]bool
 	Funcs           map[string]int64
+	Blocks          map[string]*BlockCov // basic-block coverage of the module's own functions (vacuity guard for the grids)
 	Stubs           map[string]int
 	UnwindHits      int
 	IfConverted     int
@@ -62,7 +63,7 @@ type Report struct {
 
 func newReport() *Report {
 	return &Report{Obls: map[string]*Obligation{}, PathKinds: map[string]int{}, Incon: map[string]*Inconclusive{},
-		Covers: map[string]bool{}, CoverDecl: map[string]bool{}, Funcs: map[string]int64{}, Stubs: map[string]int{}}
+		Covers: map[string]bool{}, CoverDecl: map[string]bool{}, Funcs: map[string]int64{}, Stubs: map[string]int{}, Blocks: map[string]*BlockCov{}}
 }
 
 func (r *Report) obl(key string) *Obligation {
@@ -130,4 +131,11 @@ func (e *Exec) violation(key, kind, msg string, m *sym.Model) {
 	if len(o.Violations) < 3 {
 		o.Violations = append(o.Violations, Violation{Key: key, Kind: kind, Msg: msg, Where: e.where(), Inputs: e.modelInputs(m), Params: e.cfg.Params})
 	}
+}
+
+// BlockCov records which basic blocks of one function were executed on some path.
+type BlockCov struct {
+	Total int
+	Hit   map[int]bool
+	Line  map[int]int // block index -> source line of its first positioned instruction
 }
